@@ -19,7 +19,7 @@ LEVEL = "exploration"
 LEVEL_TEXT = ("Complete enumeration of the option lattice format {ips,sfc} x mapping {low,low2,high,not given} x copier header {off,on} x "
               "defines {none, one, two incl. a hex value} (48 points) x every generated program valid at that point (position moves into "
               "several banks and mirrors, @= relocation, labels in blocks/scopes/macros/loops, defines used in data, .if and .for "
-              "bounds, overlapping and bank-crossing blocks, .include/.incbin) through Program.assemble, Program.assemble_as_patch, "
+              "bounds, overlapping and bank-crossing blocks, a 65552-byte block that IPS must split, .include/.incbin) through Program.assemble, Program.assemble_as_patch, "
               "cli_main in-process and, for every lattice point, a real `python -m a816.cli` process. Output files are read back "
               "(strict IPS reader / raw SFC bytes) and compared with the in-memory API's blocks under the same ROM type and with the "
               "defines prepended as constants; the symbol file is compared with get_all_labels(). No unit test calls these entry points.")
@@ -65,6 +65,7 @@ def programs(mapping, defines):
                    ("for", "ii", N(0), N(3), [("label", "inloop"), ("data", "db", [S("ii")])]), ("label", "last"), ("data", "dl", [S("last")])],
         "overlap": [("org", N(b["a"])), ("data", "db", [N(1), N(2), N(3), N(4)]), ("org", N(b["a"] + 2)), ("data", "db", [N(0xAA), N(0xBB), N(0xCC)]),
                     ("org", N(b["a"] + 5)), ("data", "db", [N(0xDD)]), ("org", N(b["end"])), ("label", "x"), ("data", "dl", [S("x")]), ("data", "dw", [N(0x5566)])],
+        "bigblob": [("org", N(b["a"])), ("label", "big"), ("incbin", "big.bin"), ("label", "afterbig"), ("data", "dl", [S("afterbig")])],
         "files": [("org", N(b["a"] + 0x10)), ("include", "inc.s", [("label", "fromfile"), ("data", "dw", [S("fromfile")])]), ("incbin", "blob.bin"),
                   ("data", "dl", [S("blob_bin"), S("blob_bin__size")])],
     }
@@ -78,7 +79,7 @@ def programs(mapping, defines):
     return out
 
 
-FILES = {"blob.bin": bytes(range(0x30, 0x3B))}
+FILES = {"blob.bin": bytes(range(0x30, 0x3B)), "big.bin": bytes(((i * 37) ^ (i >> 7)) & 0xFF for i in range(0x10010))}
 
 
 def lattice():
@@ -229,7 +230,9 @@ def run_inproc(i):
                         if not m:
                             raise ValueError(f"bad line {ln!r}")
                         got.append((m.group(3), (int(m.group(1), 16) << 16) | int(m.group(2), 16)))
-                    exp = [(n, val & 0xFFFFFF) for n, val in mem.labels]
+                    # expected from the REFERENCE assembler's label list (one entry per definition outside loops),
+                    # not from get_all_labels(), which the symbol file is itself built from
+                    exp = [(n, val & 0xFFFFFF) for n, val in v.labels]
                     if lines[:1] != ["[labels]"] or sorted(got) != sorted(exp):
                         viol.append({"key": "frontend:symbol-file-differs", "msg": f"{name}: symbol file {sorted(got)} expected {sorted(exp)}"})
                         outcomes.add("SYMFILE-DIFFERS")
